@@ -2,6 +2,24 @@ import ADProofs.Contour
 import ADProofs.Forest
 /-!
 # Leaves and regional maxima (C05, no pruning)
+
+Setting: symmetric adjacency, pixels processed in non-increasing order of value (ties in any
+order), criteria that accept everything (`E.indep … = true`: a leaf is absorbed at a meeting only
+if its peak equals the meeting value).  "Above-threshold pixels" are the members of `order`.
+
+* `leaf_peak_regmax`       — a peak pixel of a leaf lies in a (plateau-aware) regional maximum;
+* `leaf_peak_one_plateau`  — the peak pixels of a leaf form one plateau;
+* `leaf_plateau_closed`, `leaf_plateau_iff` — that plateau is exactly the set of peak pixels;
+* `leaves_distinct_maxima` — peak pixels of distinct leaves lie on distinct plateaus;
+* `regmax_has_leaf`, `regmax_iff_leaf_peak` — every pixel of a regional maximum is a peak pixel of
+  a leaf.
+
+Together: leaf ↦ plateau of its peak is a bijection between the leaves of `run E order` and the
+regional maxima of the above-threshold image.
+
+Proof: invariants indexed by the processed prefix (`AllInv`), one step lemma each
+(`step_N`, `step_Leaf`, `step_Plat`, `step_Surj`), built on an exact description of the structure
+that receives the pixel (`joinAdj_own`, `Ctx.recv_leaf`).  Core Lean only.
 -/
 open Tree
 
@@ -585,5 +603,124 @@ theorem step_Surj {order : List Nat} (hsubo : ∀ x ∈ pre ++ [p], x ∈ order)
       · exact fin (K2 m hm hi x hxm hR) x hxt
 
 end Step
+
+
+/-! ## the whole loop -/
+
+/-- everything that is carried along the loop -/
+structure AllInv (E : Env) (order pre : List Nat) (roots : List Tree) : Prop where
+  hpix : ∀ x, x ∈ pixelsL roots ↔ x ∈ pre
+  hne : ∀ t ∈ preL roots, t.own ≠ []
+  hconn : ∀ t ∈ preL roots, PixConn E t
+  hN : NInv E pre roots
+  hLeaf : LeafInv E pre roots
+  hPlat : PlatInv E pre roots
+  hSurj : SurjInv E order pre roots
+
+theorem run_allInv (E : Env) (hsym : ∀ x y, y ∈ E.nbrs x → x ∈ E.nbrs y) (order : List Nat)
+    (hsorted : order.Pairwise (fun a b => E.val b ≤ E.val a))
+    (hno : ∀ t p v, E.indep t p v = true) : AllInv E order order (run E order) := by
+  have key := run_induction_prefix E
+    (fun pre roots => (∀ x ∈ pre, x ∈ order) → pre.Pairwise (fun a b => E.val b ≤ E.val a) →
+      AllInv E order pre roots)
+    (by
+      intro _ _
+      exact ⟨by simp [pixelsL], by intro t ht; simp [preL] at ht, by intro t ht; simp [preL] at ht,
+        by intro r hr; simp at hr, by intro t ht; simp [preL] at ht,
+        by intro t ht; simp [preL] at ht, by intro x hx; simp at hx⟩)
+    (by
+      intro pre roots p ih hsub hs
+      obtain ⟨hs1, hle⟩ := ContourP.sorted_snoc hs
+      have ih' := ih (fun x hx => hsub x (List.mem_append_left _ hx)) hs1
+      have C : Ctx E pre roots p := ⟨hsym, hno, ih'.hpix, hle, ih'.hne, ih'.hconn⟩
+      have hN' := step_N C ih'.hN
+      refine ⟨ContourP.step_mem_pixels E roots p pre ih'.hpix, ?_,
+        ContourP.step_all_conn E hsym roots p ih'.hconn, hN', step_Leaf C hN' ih'.hLeaf,
+        step_Plat C ih'.hPlat, step_Surj C hsub ih'.hN ih'.hSurj⟩
+      intro x hx
+      rcases mem_preL_step E roots p x hx with hx | hx
+      · exact ih'.hne x hx
+      · subst hx; exact List.ne_nil_of_mem (joinAdj_shape E p _).1)
+    order
+  exact key (fun _ h => h) hsorted
+
+section Main
+variable (E : Env) (hsym : ∀ x y, y ∈ E.nbrs x → x ∈ E.nbrs y) (order : List Nat)
+  (hnd : order.Nodup) (hsorted : order.Pairwise (fun a b => E.val b ≤ E.val a))
+  (hno : ∀ t p v, E.indep t p v = true)
+include hsym hnd hsorted hno
+
+/-- the plateau of a peak pixel of a leaf consists of peak pixels of that leaf -/
+theorem leaf_plateau_closed : ∀ t ∈ Tree.preL (run E order), t.kids = [] → ∀ p ∈ t.own,
+    E.val p = t.vmax E.val → ∀ q, SamePlateau E order p q → q ∈ t.own ∧ E.val q = t.vmax E.val := by
+  intro t ht hl p hp hpk
+  have _ := hnd
+  have I := run_allInv E hsym order hsorted hno
+  refine conn_induct (P := fun q => q ∈ t.own ∧ E.val q = t.vmax E.val) ⟨hp, hpk⟩ ?_
+  intro b c _ hb hc hS
+  have := (I.hLeaf t ht hl b hb.1 hb.2 c hc hS.1).2 (by omega)
+  exact ⟨this, by omega⟩
+
+/-- **1.** a peak pixel of a leaf lies in a regional maximum -/
+theorem leaf_peak_regmax : ∀ t ∈ Tree.preL (run E order), t.kids = [] → ∀ p ∈ t.own,
+    E.val p = t.vmax E.val → RegMax E order p := by
+  intro t ht hl p hp hpk
+  have I := run_allInv E hsym order hsorted hno
+  refine ⟨(I.hpix p).mp (ContourP.pixels_sub_preL _ t ht p (ContourP.own_pixels_sub t hp)), ?_⟩
+  intro q hq r hr hro
+  obtain ⟨hqt, hqv⟩ := leaf_plateau_closed E hsym order hnd hsorted hno t ht hl p hp hpk q hq
+  have := (I.hLeaf t ht hl q hqt hqv r hr hro).1
+  omega
+
+/-- **2.** the peak pixels of a leaf form one plateau -/
+theorem leaf_peak_one_plateau : ∀ t ∈ Tree.preL (run E order), t.kids = [] → ∀ p ∈ t.own,
+    ∀ q ∈ t.own, E.val p = t.vmax E.val → E.val q = t.vmax E.val → SamePlateau E order p q := by
+  intro t ht hl p hp q hq hpk hqk
+  have _ := hnd
+  exact (run_allInv E hsym order hsorted hno).hPlat t ht hl p hp q hq hpk hqk
+
+/-- the plateau of a peak pixel of a leaf is exactly the set of peak pixels of that leaf -/
+theorem leaf_plateau_iff : ∀ t ∈ Tree.preL (run E order), t.kids = [] → ∀ p ∈ t.own,
+    E.val p = t.vmax E.val → ∀ q, SamePlateau E order p q ↔ (q ∈ t.own ∧ E.val q = t.vmax E.val) := by
+  intro t ht hl p hp hpk q
+  exact ⟨leaf_plateau_closed E hsym order hnd hsorted hno t ht hl p hp hpk q,
+    fun h => leaf_peak_one_plateau E hsym order hnd hsorted hno t ht hl p hp q h.1 hpk h.2⟩
+
+/-- **4.** every pixel of a regional maximum is a peak pixel of a leaf -/
+theorem regmax_has_leaf : ∀ p, RegMax E order p →
+    ∃ t ∈ Tree.preL (run E order), t.kids = [] ∧ p ∈ t.own ∧ E.val p = t.vmax E.val := by
+  intro p hR
+  have _ := hnd
+  have I := run_allInv E hsym order hsorted hno
+  obtain ⟨s, hs, hps⟩ := own_of_pixelsL _ p ((I.hpix p).mpr hR.1)
+  obtain ⟨hl, hv⟩ := I.hSurj p hR.1 hR s hs hps
+  exact ⟨s, hs, hl, hps, hv⟩
+
+
+/-- **1 + 4.** the regional maxima are exactly the peaks of the leaves -/
+theorem regmax_iff_leaf_peak (p : Nat) : RegMax E order p ↔
+    ∃ t ∈ Tree.preL (run E order), t.kids = [] ∧ p ∈ t.own ∧ E.val p = t.vmax E.val :=
+  ⟨regmax_has_leaf E hsym order hnd hsorted hno p,
+   fun ⟨t, ht, hl, hp, hv⟩ => leaf_peak_regmax E hsym order hnd hsorted hno t ht hl p hp hv⟩
+
+/-- **3.** peak pixels of distinct leaves lie on distinct plateaus -/
+theorem leaves_distinct_maxima : ∀ t ∈ Tree.preL (run E order), ∀ t' ∈ Tree.preL (run E order),
+    t.kids = [] → t'.kids = [] → t ≠ t' → ∀ p ∈ t.own, ∀ q ∈ t'.own,
+    E.val p = t.vmax E.val → E.val q = t'.vmax E.val → ¬ SamePlateau E order p q := by
+  intro t ht t' ht' hl _ hne p hp q hq hpk _ hsp
+  obtain ⟨hqt, _⟩ := leaf_plateau_closed E hsym order hnd hsorted hno t ht hl p hp hpk q hsp
+  have hndp : (pixelsL (run E order)).Nodup :=
+    ((run_pixels E order).trans (List.reverse_perm order)).nodup_iff.mpr hnd
+  exact hne (own_uniqueL _ hndp t ht t' ht' q hqt hq)
+
+/-- variant of **3.** with distinct identifiers -/
+theorem leaves_distinct_maxima_id : ∀ t ∈ Tree.preL (run E order), ∀ t' ∈ Tree.preL (run E order),
+    t.kids = [] → t'.kids = [] → t.id ≠ t'.id → ∀ p ∈ t.own, ∀ q ∈ t'.own,
+    E.val p = t.vmax E.val → E.val q = t'.vmax E.val → ¬ SamePlateau E order p q := by
+  intro t ht t' ht' hl hl' hne
+  exact leaves_distinct_maxima E hsym order hnd hsorted hno t ht t' ht' hl hl'
+    (fun e => hne (by rw [e]))
+
+end Main
 
 end P20
